@@ -97,7 +97,9 @@ Annot(schema, name, bi, ri, exname) ==
              [] OTHER -> <<schema[i]>>])
 
 \* ---------------------------------------------------------------- outlines
-\* outline = [name, tags, steps, blocks]; block = [name, tags, cols, hline, rows]; row = [cells, line]
+\* outline = [name, tags, steps, blocks]; block = [name, tags, cols, hline, rows]; row = [cells, line, gap]
+\* gap: what the feature file has between the previous table line and this row: 0 nothing, 1 a "#" comment line,
+\* 2 a blank line (both legal inside a table and skipped by the parser); line = the row's line in the file
 RECURSIVE PairsFrom(_,_)
 PairsFrom(o, bi) == IF bi > Len(o.blocks) THEN <<>>
                     ELSE [ri \in 1..Len(o.blocks[bi].rows) |-> <<bi, ri>>] \o PairsFrom(o, bi + 1)
@@ -138,15 +140,23 @@ SnapOf(o) == [name   |-> Str(o.name), tags |-> StrEach(o.tags),
                                          [cells |-> StrEach(o.blocks[b].rows[r].cells),
                                           line  |-> o.blocks[b].rows[r].line]]]]]
 
+\* a snapshot with the line numbers blanked: what must agree before an access is judged (the lines that the parser
+\* gave to the rows are not a precondition: C06.line judges the scenarios against the rows' lines in the file)
+NoLines(sn) == [name |-> sn.name, tags |-> sn.tags, steps |-> sn.steps,
+                blocks |-> [b \in DOMAIN sn.blocks |->
+                              [name |-> sn.blocks[b].name, tags |-> sn.blocks[b].tags, cols |-> sn.blocks[b].cols,
+                               rows |-> [r \in DOMAIN sn.blocks[b].rows |-> sn.blocks[b].rows[r].cells]]]]
+
 \* ---------------------------------------------------------------- layout of the rendered feature file
 \* line 1 "Feature: F"; [tags line]; "Scenario Outline: .."; steps (doc-string between two """ lines,
-\* table heading + rows); per block: [tags line]; "Examples: .."; heading; rows
+\* table heading + rows); per block: [tags line]; "Examples: .."; heading; rows, each preceded by its gap line
 CountTok(text, tok) == Cardinality({i \in DOMAIN text : text[i] = tok})
 StepLines(s) == 1 + (IF s.doc # <<>> THEN 3 + CountTok(s.doc, "\n") ELSE 0)
                   + (IF s.th # <<>> THEN 1 + Len(s.tr) ELSE 0)
 RECURSIVE SumStepLines(_)
 SumStepLines(steps) == IF steps = <<>> THEN 0 ELSE StepLines(Head(steps)) + SumStepLines(Tail(steps))
-BlockLines(b) == (IF b.tags # <<>> THEN 1 ELSE 0) + 2 + Len(b.rows)
+GapLines(rows, n) == Cardinality({r \in 1..n : rows[r].gap # 0})        \* gap lines up to and including row n's
+BlockLines(b) == (IF b.tags # <<>> THEN 1 ELSE 0) + 2 + Len(b.rows) + GapLines(b.rows, Len(b.rows))
 RECURSIVE SumBlockLines(_,_)
 SumBlockLines(blocks, n) == IF n = 0 THEN 0 ELSE BlockLines(blocks[n]) + SumBlockLines(blocks, n - 1)
 OutlineLine(o) == IF o.tags # <<>> THEN 3 ELSE 2
@@ -155,13 +165,14 @@ HeadingLine(o, bi) == OutlineLine(o) + SumStepLines(o.steps) + SumBlockLines(o.b
 WithLines(o) == [o EXCEPT !.blocks = [bi \in DOMAIN o.blocks |->
                     [o.blocks[bi] EXCEPT !.hline = HeadingLine(o, bi),
                                          !.rows = [ri \in DOMAIN o.blocks[bi].rows |->
-                                                     [o.blocks[bi].rows[ri] EXCEPT !.line = HeadingLine(o, bi) + ri]]]]]
+                                                     [o.blocks[bi].rows[ri] EXCEPT
+                                                         !.line = HeadingLine(o, bi) + ri + GapLines(o.blocks[bi].rows, ri)]]]]]
 
 \* ---------------------------------------------------------------- table API (taken as given) and the cache
 \* op = [op, b, cells, line, name, dflt]: "access" | "addrow" (cells = the new row, line 0 = not given)
 \*                                      | "addcol" (name, cells = values for the first rows, dflt for the rest)
 AddRow(o, b, cells, line) ==
-   [o EXCEPT !.blocks[b].rows = Append(@, [cells |-> cells, line |-> line])]
+   [o EXCEPT !.blocks[b].rows = Append(@, [cells |-> cells, line |-> line, gap |-> 0])]
 AddCol(o, b, name, vals, dflt) ==
    [o EXCEPT !.blocks[b].cols = Append(@, name),
              !.blocks[b].rows = [r \in DOMAIN @ |->
